@@ -780,6 +780,90 @@ def p5(e: Engine, rep: Report):
         rep.error('anchor vanished: recursion / apply in %s' % rwhere)
         return
     params = f.params[skip:]
+
+    def position_walk():
+        """The walk that advances its position in a `while` loop: the
+        position variable relative to the policy applied last - 'F' nothing
+        applied yet, 0 = the index just applied, 1 = one past it.  True when
+        on every path each apply() uses the next index, each recursion is
+        handed last-applied + 1, and nothing else moves the position; False
+        when some path breaks that; None when the shape is not read."""
+        recv = app[0].ast.func.value if isinstance(
+            app[0].ast.func, ast.Attribute) else None
+        if not (isinstance(recv, ast.Subscript) and
+                isinstance(recv.slice, ast.Name)):
+            return None
+        iv = recv.slice.id
+        ivp = path_of(recv.slice, app[0].frame)
+        if any(not (isinstance(a.ast.func, ast.Attribute) and
+                    isinstance(a.ast.func.value, ast.Subscript) and
+                    path_of(a.ast.func.value.slice, a.frame) == ivp)
+               for a in app):
+            return None
+
+        def pos_arg(n):
+            # the argument of the recursion that lands in the position
+            # parameter of the walk
+            defs = [s2 for s2 in g.of_kind('stmt')
+                    if isinstance(s2.ast, ast.Assign) and any(
+                        isinstance(t, ast.Name) and t.id == iv
+                        for t in s2.ast.targets)]
+            pp = None
+            if iv in params:
+                pp = iv
+            elif len(defs) == 1 and isinstance(defs[0].ast.value, ast.Name) \
+                    and defs[0].ast.value.id in params:
+                pp = defs[0].ast.value.id
+            if pp is None:
+                return None
+            k = params.index(pp)
+            return n.ast.args[k] if k < len(n.ast.args) else None
+
+        def step(n, label, st):
+            if isinstance(label, tuple) or st == 'bad':
+                return st
+            if n in app:
+                return 0 if st in ('F', 1) else 'bad'
+            if n.kind == 'stmt' and isinstance(n.ast, ast.AugAssign) and \
+                    isinstance(n.ast.target, ast.Name) and \
+                    n.ast.target.id == iv and n.frame is app[0].frame:
+                if isinstance(n.ast.op, ast.Add) and \
+                        isinstance(n.ast.value, ast.Constant) and \
+                        n.ast.value.value == 1 and st == 0:
+                    return 1
+                return 'bad'
+            if n.kind == 'stmt' and isinstance(n.ast, ast.Assign) and any(
+                    isinstance(t, ast.Name) and t.id == iv
+                    for t in n.ast.targets) and n.frame is app[0].frame:
+                v = n.ast.value
+                if st == 'F' and isinstance(v, ast.Name) and v.id in params:
+                    return 'F'
+                if st == 0 and isinstance(v, ast.BinOp) and \
+                        isinstance(v.op, ast.Add) and \
+                        isinstance(v.left, ast.Name) and v.left.id == iv and \
+                        isinstance(v.right, ast.Constant) and \
+                        v.right.value == 1:
+                    return 1
+                return 'bad'
+            if n in rec:
+                a = pos_arg(n)
+                if a is None:
+                    return 'bad'
+                if isinstance(a, ast.Name) and a.id == iv and st == 1:
+                    return st
+                if isinstance(a, ast.BinOp) and isinstance(a.op, ast.Add) \
+                        and isinstance(a.left, ast.Name) and \
+                        a.left.id == iv and \
+                        isinstance(a.right, ast.Constant) and \
+                        a.right.value == 1 and st == 0:
+                    return st
+                return 'bad'
+            return st
+        if any(pos_arg(n) is None for n in rec):
+            return None
+        w = dataflow.typestate_witness(g, 'F', step,
+                                       lambda n, st: st == 'bad')
+        return w is None
     # which parameter is the envelope (handed to apply), which the position
     a0 = app[0].ast.args[0] if app[0].ast.args else None
     cur = a0.id if isinstance(a0, ast.Name) and a0.id in params else None
@@ -831,6 +915,17 @@ def p5(e: Engine, rep: Report):
                isinstance(a.right, ast.Constant) and a.right.value == 1 and
                isinstance(a.left, ast.Name) and i < len(params) and
                a.left.id == params[i]]
+        if not inc and loop_walk and position_walk() is not None:
+            rep.check(position_walk(), 'P5', where,
+                      'recursion advances to the next policy',
+                      'the walk advances its position in a loop and calls '
+                      'itself with `%s`: on some path that is not the index '
+                      'after the policy applied last (a policy is skipped '
+                      'or applied again)' % ', '.join(
+                          ast.unparse(a) for a in n.ast.args), loc=n.loc(),
+                      reason='position is last-applied + 1 at every '
+                      'recursion and every further apply()')
+            continue
         if not inc and loop_walk:
             rep.unknown('P5', where, 'recursion advances to the next policy',
                         'the walk advances its position in a `while` loop '
@@ -915,7 +1010,34 @@ def p5(e: Engine, rep: Report):
         env_arg(n) is not None and ast.unparse(env_arg(n)) == cur and
         retv is not None and holds(fx.at(n), (False, retv))
         for n in other))
-    if not untouched_ok and loop_walk:
+    read_loop = False
+    if not untouched_ok and loop_walk and position_walk() and \
+            retv is not None:
+        # the no-output branch goes round the loop: the same envelope meets
+        # the next policy (or the chain has ended)
+        heads = [h for h, w in common.while_heads(g)
+                 if any(x is app[0].ast for x in ast.walk(w))]
+        goes_on = False
+        if len(heads) == 1:
+            after = dataflow.must_events_after(
+                g, lambda n: ['head'] if n is heads[0] else [],
+                edge=c07.no_call_exc)
+            for t in g.of_kind('test'):
+                if path_of(t.ast, t.frame) != retv:
+                    continue
+                for l, s2 in t.succ:
+                    if l == 'F':
+                        st = after.get(s2.id)
+                        goes_on = s2 is heads[0] or isinstance(
+                            st, dataflow.Top) or 'head' in (st or ())
+            rebinds = [s2 for s2 in g.of_kind('stmt')
+                       if isinstance(s2.ast, (ast.Assign, ast.AugAssign)) and
+                       any(isinstance(y, ast.Name) and y.id == cur and
+                           isinstance(y.ctx, ast.Store)
+                           for y in ast.walk(s2.ast))]
+            untouched_ok = goes_on and not rebinds
+            read_loop = True
+    if not untouched_ok and loop_walk and not read_loop:
         rep.unknown('P5', where, 'an untouched envelope runs through the '
                     'remaining policies', 'the walk goes on to the next '
                     'policy by looping, not by calling itself: not read',
